@@ -129,13 +129,22 @@ theorem no_shared_write : (globalFacts.all fun g => g.writtenIn.all (· ∈ init
     (reviewed: `clenLens`, `complexLens`, `simpleLens*`, `dictLUT`, `endBlock`, `magic`,
     `IdentityLUT`), never the destination of a write.  Entries ending in `()` are method calls on a
     package-level variable (a pointer-receiver method may mutate it): only the `Init` calls of
-    brotli's `initPrefixCodeLUTs`, which runs once from the package initialiser. -/
+    brotli's `initPrefixCodeLUTs`, which runs once from the package initialiser.  Entries ending in `=` are uses of a
+    package-level variable as a value (assigned, passed, returned): reviewed - error sentinels
+    (`errClosed`, `errCorrupted`, ...), fixed tables passed to read-only consumers and scalar
+    constants; none hands a mutable package-level slice or map to an instance. -/
 theorem address_taken_expected :
     (globalFacts.filter fun g => !g.addrTakenIn.isEmpty).map (fun g => (g.pkg, g.name, g.addrTakenIn)) =
       [
        ("flate", "clenLens", ["*prefixReader.ReadPrefixCodes[:]"]),
        ("flate", "decDist", ["*Reader.readBlockHeader"]),
        ("flate", "decLit", ["*Reader.readBlockHeader"]),
+       ("flate", "errClosed", ["*Reader.Close="]),
+       ("brotli", "blkLenRanges", ["*Reader.readBlockSwitch=", "*Reader.readPrefixCodes="]),
+       ("brotli", "codeCLens", ["*bitReader.readComplexPrefixCode=", "initPrefixCodeLUTs="]),
+       ("brotli", "codeCounts", ["initPrefixCodeLUTs="]),
+       ("brotli", "codeMaxRLE", ["initPrefixCodeLUTs="]),
+       ("brotli", "codeWinBits", ["initPrefixCodeLUTs="]),
        ("brotli", "complexLens", ["*bitReader.readComplexPrefixCode[:]"]),
        ("brotli", "decCLens", ["*bitReader.readComplexPrefixCode", "initPrefixCodeLUTs.Init()"]),
        ("brotli", "decCounts", ["*Reader.readPrefixCodes", "initPrefixCodeLUTs.Init()"]),
@@ -146,6 +155,9 @@ theorem address_taken_expected :
        ("brotli", "encCounts", ["initPrefixCodeLUTs.Init()"]),
        ("brotli", "encMaxRLE", ["initPrefixCodeLUTs.Init()"]),
        ("brotli", "encWinBits", ["initPrefixCodeLUTs.Init()"]),
+       ("brotli", "errCorrupted", ["*Reader.readBlockHeader=", "*Reader.readCommands=", "*Reader.readContextMap=", "*Reader.readStreamHeader=", "*bitReader.readComplexPrefixCode=", "*bitReader.readSimplePrefixCode=", "*prefixDecoder.Init="]),
+       ("brotli", "errInvalid", ["*bitReader.ReadSymbol="]),
+       ("brotli", "maxRLERanges", ["*Reader.readContextMap="]),
        ("brotli", "simpleLens1", ["*bitReader.readSimplePrefixCode[:]"]),
        ("brotli", "simpleLens2", ["*bitReader.readSimplePrefixCode[:]"]),
        ("brotli", "simpleLens3", ["*bitReader.readSimplePrefixCode[:]"]),
@@ -153,10 +165,15 @@ theorem address_taken_expected :
        ("brotli", "simpleLens4b", ["*bitReader.readSimplePrefixCode[:]"]),
        ("bzip2", "decSel", ["*Reader.decodePrefix"]),
        ("bzip2", "encSel", ["*Writer.encodePrefix"]),
+       ("bzip2", "errClosed", ["*Reader.Close=", "*Writer.Close="]),
+       ("bzip2", "rleDone", ["*Reader.Read=", "*Writer.Write=", "*runLengthEncoding.Read=", "*runLengthEncoding.Write="]),
        ("xflate", "endBlock", ["*chunkReader.Read[:]"]),
+       ("xflate", "errClosed", ["*Reader.Close=", "*Writer.Close="]),
+       ("xflate", "errCorrupted", ["*Reader.Read=", "*Reader.Reset=", "*Reader.decodeFooter=", "*Reader.decodeIndex=", "*Reader.decodeIndexes=", "errWrap="]),
        ("xflate", "magic", ["*Reader.decodeFooter[:]", "*Writer.encodeFooter[:]"]),
        ("meta", "decHuff", ["*Reader.decodeBlock"]),
        ("meta", "encHuff", ["*Writer.encodeBlock"]),
+       ("meta", "errClosed", ["*Reader.Close=", "*Writer.Close="]),
        ("internal", "IdentityLUT", ["*MoveToFront.Decode[:]", "*MoveToFront.Encode[:]"])] := by
   decide
 
